@@ -119,6 +119,9 @@ HK = {"tag": (8, 4), "bi": (8, 0), "hb": (16, 8), "ht": (8, 4), "dummy": (8, 4)}
 def ref_case(kind, mis, length, declared, rng):
     hs, so = HK[kind]
     b = bytearray(rbytes(rng, length))
+    if so == 4 and length >= 4 and rng.random() < 0.35:
+        # the type word: 0 (end tag), small specified numbers, 2^32-1 - a header kind must not treat any of them specially
+        b[0:4] = u32(rng.choice([0, 0, 0, 1, 3, 8, 21, 22, 0xFFFFFFFF]))[:min(4, length)]
     w = u32(declared)
     for i in range(4):
         if so + i < length:
@@ -233,6 +236,14 @@ class C02(PropDef):
             cases.append("LOAD 0 " + hx(self.region(t, rng.getrandbits(32), tail, rng)))
         for t in (1 << 20, (1 << 20) - 8, (1 << 20) - 1):
             cases.append("LOAD 0 " + hx(self.region(t, 0, (0, 8), rng)))
+        # a proper end tag FOLLOWED by all-zero words up to the declared end (the last 8 bytes are what counts), also with
+        # nothing but zeros behind the header
+        for k in (1, 2, 3, 5):
+            for pre in (0, 8, 24):
+                for reserved in (0, rng.getrandbits(32)):
+                    body = rbytes(rng, pre) + u32(0) + u32(8) + b"\0" * (8 * k)
+                    cases.append("LOAD 0 " + hx(u32(8 + len(body)) + u32(reserved) + body))
+            cases.append("LOAD 0 " + hx(u32(8 + 8 * k) + u32(0) + b"\0" * (8 * k)))
         # declared sizes up to 4 GiB: the harness really maps the region (lazily), the model side is the closed form of
         # `load` (theorem C02.load_eq_closed); around 2^31 / 2^32 and a few in between
         for t in (1 << 24, (1 << 28) + 8, (1 << 31) - 8, (1 << 31) - 1, 1 << 31, (1 << 31) + 1, (1 << 31) + 4, (1 << 31) + 8,
@@ -605,7 +616,7 @@ class SweepProp(PropDef):
             return None
         if impl.startswith("crash"):
             return "the process crashed (%s)" % impl
-        ev = _oracle.eqpad_violation(impl)
+        ev = _oracle.eqpad_violation(impl) or _oracle.probe_violation(impl)
         if ev:
             return ev
         try:
